@@ -1,4 +1,5 @@
 import Driver.Rns
+import Driver.Notif
 open Lean (Json)
 
 /-- Line protocol: one JSON step record per line on stdin; one verdict line per record on stdout:
@@ -13,6 +14,7 @@ def checkLine (line : String) : String :=
     let res : Except String (Option String) :=
       match modName with
       | "rns" => Driver.Rns.check j
+      | "notif" => Driver.Notif.check j
       | "panic" => .ok (some s!"panic {(j.getObjValAs? String "where").toOption.getD ""}: {(j.getObjValAs? String "panic").toOption.getD ""}")
       | m => .error s!"unknown mod {m}"
     match res with
